@@ -320,6 +320,14 @@ func init() {
 	add(mutation{Name: "clock-jump-1e9", Level: "commit", Verdict: "reject", Props: "C03 C07", Applies: nonMergeNonRoot, Apply: func(h *history, c, o int) {
 		bump(h, c, 1_000_000_000)
 	}})
+	// the far end of the clock's range: a hop that only fits an unsigned 64-bit number, and one
+	// that brings the clock within reach of its roll-over
+	add(mutation{Name: "clock-jump-past-half-range", Level: "commit", Verdict: "reject", Props: "C03 C07", Applies: nonMergeNonRoot, Apply: func(h *history, c, o int) {
+		bump(h, c, 1<<63+10)
+	}})
+	add(mutation{Name: "clock-jump-near-rollover", Level: "commit", Verdict: "reject", Props: "C03 C07", Applies: nonMergeNonRoot, Apply: func(h *history, c, o int) {
+		bump(h, c, ^uint64(0)-1_000_000)
+	}})
 	add(mutation{Name: "merge-commit-with-operations", Level: "commit", Verdict: "reject", Props: "C03 C07", Applies: isMerge, Apply: func(h *history, c, o int) {
 		g := &gen{r: nil}
 		_ = g
